@@ -6,7 +6,8 @@ import SlogModel.Basic
   (C11_ids_increasing), queued in the buffer in acceptance order (C03_fifo), taken and transmitted by
   the client in queue order, acknowledged or — when the connection fails — put back in id order ahead
   of everything newer (C02_resend_order), saved at stop and recovered in name order at the next start
-  (C03_recovered_first), or counted as dropped on overflow.  Each action is the contract a component
+  (C03_recovered_first), or counted as dropped — on overflow when they are made, or later (`drop`) when a file cannot be read
+  back or a chunk cannot be saved (C03_conserved: dropped is one of the places).  Each action is the contract a component
   theorem establishes; the theorems here are what the contracts give end to end.
 
   Several pipelines and outputs are independent copies of this system (C06: a record reaches exactly
@@ -36,6 +37,7 @@ inductive Act where
   | flushDrop            -- … or dropped on queue / disk-limit overflow (counted)
   | take                 -- the client takes the oldest queued chunk and transmits it
   | ack (c : Nat)        -- the upstream acknowledges a chunk in flight
+  | drop (c : Nat)       -- a queued or transmitted chunk is given up and counted as dropped: unreadable / corrupt file at load, size limit or write error at hand-back or at the shutdown save
   | connFail             -- the connection ends (error, reset, timeout, reconnect): unacknowledged chunks go back, oldest first
   | stop                 -- graceful stop: everything not acknowledged is saved
   | restart              -- next start on the same queue directory
@@ -74,6 +76,9 @@ def step (s : St) : Act → Option St
   | .ack c =>
     if !s.running ∨ c ∉ s.inflight then none
     else some { s with inflight := s.inflight.filter (· ≠ c), acked := s.acked ++ [c] }
+  | .drop c =>
+    if !s.running ∨ (c ∉ s.queue ∧ c ∉ s.inflight) then none
+    else some { s with queue := s.queue.filter (· ≠ c), inflight := s.inflight.filter (· ≠ c), dropped := s.dropped ++ [c] }
   | .connFail =>
     if !s.running then none
     else some { s with queue := sortIds (s.inflight ++ s.queue), inflight := [], conn := s.conn + 1 }
